@@ -95,6 +95,16 @@ def c08_3(rep, ix, G):
         ok = u(v.elt) in (want, alt)
         detail = "element `%s`, expected `%s`" % (u(v.elt), want)
     rep.check(ok, R, ix.site(f, st[0]), "register number = int(<symbol text>[%d:])" % len(pre or ""), detail, key="prefix")
+    # construction evaluates nothing: the function is built, not called (a probe point can be a pole or outside the domain of a perfectly good
+    # transform - 1/(q0-1) at 1 - and loading a script must not depend on it)
+    fnames = {u(a.targets[0]) for a in walk_shallow(f.node) if isinstance(a, ast.Assign) and len(a.targets) == 1 and isinstance(a.value, ast.Call) and u(a.value.func).endswith("lambdify")}
+    fnames |= {"self.func"}
+    calls = [c for c in ast.walk(f.node) if isinstance(c, ast.Call) and u(c.func) in fnames]
+    for c in calls:
+        rep.bad(R, ix.site(f, c), "the constructor does not evaluate the transform", "`%s`: the function is called while the script is being loaded; where the probe point is a pole, or the value is not "
+                "what the probe expects, a well-formed script is refused" % " ".join(u(c).split())[:60], key="ctor evaluates")
+    if not calls:
+        rep.ok(R, ix.site(f), "RegRefTransform.__init__ builds the function and does not call it (%d names checked)" % len(fnames))
 
 
 def wrap_sites(fn):
